@@ -265,7 +265,7 @@ def verify_unit(unit_name, repo=None, use_cache=True, keep=True, canary=True):
 
     if _TOOLV is None:
         _TOOLV = tool_versions()
-    key = sha(text, _TOOLV, str(MULTI_ERR))
+    key = sha(text, _TOOLV, str(MULTI_ERR), open(os.path.join(VERIF, 'vp', 'gen.py')).read(), open(__file__).read())   # the canary text and the classification depend on the generator/driver
     os.makedirs(CACHE_DIR, exist_ok=True)
     cpath = os.path.join(CACHE_DIR, key + '.json')
     cached = None
@@ -333,6 +333,9 @@ def verify_unit(unit_name, repo=None, use_cache=True, keep=True, canary=True):
         exp, hit = res.canary['expected'], res.canary['failed_as_expected']
         if exp != hit:
             res.status = 'undecided'
-            res.reason = 'vacuity guard: canary assertion verified in %s' % sorted(set(exp) - set(hit))
+            if res.canary.get('hard_errors'):
+                res.reason = 'vacuity guard could not run: the canary copy does not compile: %s' % '; '.join(res.canary['hard_errors'])[:600]
+            else:
+                res.reason = 'vacuity guard: canary assertion verified in %s' % sorted(set(exp) - set(hit))
     res.wall_s = time.time() - t0
     return res
